@@ -10,7 +10,7 @@ use std::os::unix::ffi::OsStringExt;
 fn log(line: &str) {
 	if let Ok(p) = std::env::var("WXH_OUT") {
 		if let Ok(mut f) = std::fs::OpenOptions::new().create(true).append(true).open(p) {
-			let _ = writeln!(f, "{line}");
+			let _ = f.write_all(format!("{line}\n").as_bytes());
 		}
 	}
 }
@@ -30,6 +30,16 @@ extern "C" fn on_sig(s: libc::c_int) {
 	GOT.store(s, std::sync::atomic::Ordering::SeqCst);
 }
 
+fn proc_alive(pid: i64) -> bool {
+	match std::fs::read_to_string(format!("/proc/{pid}/stat")) {
+		Ok(s) => match s.rfind(')') {
+			Some(i) => !matches!(s[i + 1..].trim_start().chars().next(), Some('Z') | Some('X') | None),
+			None => false,
+		},
+		Err(_) => false,
+	}
+}
+
 fn main() {
 	let argv: Vec<String> = std::env::args_os().map(|a| hex(&a.into_vec())).collect();
 	let pid = std::process::id();
@@ -44,7 +54,7 @@ fn main() {
 				if let Some(j) = l[i..].find("\"pid\":") {
 					let num: String = l[i + j + 6..].chars().take_while(|c| c.is_ascii_digit()).collect();
 					if let Ok(n) = num.parse::<i64>() {
-						if n != pid as i64 && unsafe { libc::kill(n as i32, 0) } == 0 && !alive_prev.contains(&n) {
+						if n != pid as i64 && proc_alive(n) && !alive_prev.contains(&n) {
 							alive_prev.push(n);
 						}
 					}
